@@ -214,6 +214,22 @@ struct GridGen {
         if (g.container == 1 && g.elems[0].kind == 2 && !valid(g)) { g.elems.resize(1); g.container = 0; }
         cnt("partner_partial_cover"); return g; }
 
+    // 2..4 nested frames (polygon with one hole; the innermost may be solid), each strictly inside the hole of the previous one,
+    // as ONE MultiPolygon whose elements come in random order — shells inside holes of other shells, three levels deep
+    GGeom nestedFrames() {
+        GGeom g; g.container = 1; int k = r.range(2, 4); long step = r.range(1, 2); long S = step * (4 * k + r.range(0, 2));
+        long lo = 0, hi = S;
+        for (int i = 0; i < k; i++) { GElem e; e.kind = 2;
+            std::vector<IPt> sh = {{lo, lo}, {hi, lo}, {hi, hi}, {lo, hi}, {lo, lo}}; vary(sh, true); e.rings.push_back(sh);
+            bool solid = (i == k - 1) && r.chance(50);
+            if (!solid) { long a = lo + step, b = hi - step; if (b - a < 2 * step + 1 && i < k - 1) break;
+                if (b > a) { std::vector<IPt> ho = {{a, a}, {b, a}, {b, b}, {a, b}, {a, a}}; if (i == k - 1 && r.chance(30)) ho = {{a, a}, {b, a}, {a, b}, {a, a}}; vary(ho, true); e.rings.push_back(ho); } }
+            g.elems.push_back(e); lo += 2 * step; hi -= 2 * step; if (hi - lo < 1) break; }
+        for (size_t i = g.elems.size(); i > 1; i--) std::swap(g.elems[i - 1], g.elems[r.below(i)]);
+        if (g.elems.size() == 1) g.container = 0;
+        if (!valid(g)) { g.elems.resize(1); g.container = 0; }
+        cnt("nested_frames_" + std::to_string(g.elems.size())); return g; }
+
     Xform xform() { Xform t; t.sym = (int) r.below(8);
         switch (r.below(4)) { case 0: break; case 1: t.tx = r.range(-100, 100); t.ty = r.range(-100, 100); break;
                               case 2: t.tx = r.range(-30000000, 30000000); t.ty = r.range(-30000000, 30000000); break;
